@@ -47,6 +47,10 @@ def asan_summary(logprefix):
 
 def run(cfg, all_checks, tier, seed, repo, replay_dir):
     t0 = time.time()
+    try:
+        known_all = json.load(open(os.path.join(VERIF, 'known_findings.json'))).get('findings', [])
+    except Exception:
+        known_all = []
     delegates = cfg['delegates'][tier] if isinstance(cfg['delegates'], dict) else cfg['delegates']
     coverage = {'delegates': {}, 'samples': []}
     violations, internal = [], []
@@ -82,6 +86,8 @@ def run(cfg, all_checks, tier, seed, repo, replay_dir):
         env.update(all_checks[d].get('env', {}))
         env.update(extra)
         env['VERIF_DIR'] = VERIF
+        env['VERIF_KNOWN_KEYS'] = '\n'.join(k.get('key', '') for k in known_all if k.get('property') == d and k.get('status') == 'known')
+        env['VERIF_MONITOR'] = '1'      # delegates do not cut a history short at their own (functional) violations: the monitors watch what the code does next
         if mode == 'asan':
             env['ASAN_OPTIONS'] = 'detect_leaks=0:abort_on_error=0:log_path=%s' % logp
             env['UBSAN_OPTIONS'] = 'print_stacktrace=1:log_path=%s' % logp
